@@ -351,9 +351,41 @@ def run_pins(ctx: Ctx, rec: Recorder) -> None:
         pass
 
 
+def run_histories(ctx: Ctx, rec: Recorder) -> None:
+    """The verdict for (certificate, host, commonName flag) must not depend on what was matched before: every rejecting
+    call is repeated right after an accepting call that shares its host, its SAN list or its entry (memoised verdicts
+    or compiled patterns keyed on too little show up here), through both entry points."""
+    hosts = ["a.b", "A.B", "ab.a.b", "xn--a.a.b", "a.example.test", "1.2.3.4"]
+    for via in ("wrapper", "function"):
+        for h in hosts:
+            for cn_first in (True, False):
+                seq = [
+                    # (SAN, CN, cn_enabled, host)
+                    ([], h.lower(), True, h),            # accept: SAN-less certificate, commonName enabled and equal
+                    ([], "other.name", True, h),         # reject: another commonName
+                    ([], h.lower(), False, h),           # reject: commonName not enabled
+                    ([], h.lower(), False, h.upper()),   # reject: same, another spelling of the host
+                    ([["DNS", h.lower()]], None, False, h),          # accept by SAN
+                    ([["DNS", "zz." + h.lower()]], None, False, h),  # reject: different SAN
+                    ([["DNS", "*." + h.lower().split(".", 1)[-1]]], None, False, h),  # wildcard entry: reference decides
+                    ([["DNS", "*." + h.lower().split(".", 1)[-1]]], None, False, "xn--a." + h.lower().split(".", 1)[-1]),
+                    ([], "other.name", False, h),        # reject
+                ]
+                if not cn_first:
+                    seq = seq[4:] + seq[:4]
+                for san, cn, en, host in seq + seq:
+                    rec.case(["history", via, san, cn, en, host])
+                    rec.mon("history_sequence")
+                    judge(rec, via, san, cn, en, host)
+
+
 def run_shard(ctx: Ctx, rec: Recorder) -> None:
     run_pins(ctx, rec)
+    if ctx.shard == 0:
+        run_histories(ctx, rec)
     run_names(ctx, rec)
+    if ctx.shard == 0:
+        run_histories(ctx, rec)
 
 
 def replay(case: dict[str, typing.Any], ctx: Ctx, rec: Recorder) -> None:
